@@ -469,7 +469,13 @@ class Source(_Component):
         if self._params["vo"] == 0.0 or _get_lopt(pstate, "off", 0, False):
             return 0.0, STATE_OFF
         vo = self._params["vo"] - self._params["rs"] * io
-        return vo, STATE_DEFAULT
+        if np.sign(vo) == np.sign(self._params["vo"]):
+            return vo, STATE_DEFAULT
+        raise ValueError(
+            "Unstable system: Source component '{}' has zero output voltage".format(
+                self._params["name"]
+            )
+        )
 
     def _solv_pwr_loss(self, vi, vo, ii, io, ta, phase, phase_conf={}, pstate={}):
         """Calculate power and loss in Source"""
@@ -1433,6 +1439,12 @@ class PSwitch(_Component):
         v = abs(vi[0]) - self._params["rs"] * io
         if phase_conf and phase not in phase_conf:
             return 0.0, STATE_OFF
+        if not v > 0.0:
+            raise ValueError(
+                "Unstable system: PSwitch component '{}' has zero output voltage".format(
+                    self._params["name"]
+                )
+            )
         if vi[0] >= 0.0:
             return v, STATE_DEFAULT
         return -v, STATE_DEFAULT
@@ -1597,6 +1609,12 @@ class PMux(_Component):
         v = abs(vi[pinp]) - r * io
         if phase_conf and phase not in phase_conf:
             return 0.0, STATE_OFF
+        if not v > 0.0:
+            raise ValueError(
+                "Unstable system: PMux component '{}' has zero output voltage".format(
+                    self._params["name"]
+                )
+            )
         if vi[pinp] >= 0.0:
             return v, STATE_DEFAULT
         return -v, STATE_DEFAULT
@@ -1791,7 +1809,13 @@ class Rectifier(_Component):
             )
         # mosfet mode
         v = abs(vi[0]) - 2 * self._params["rs"] * io
-        return abs(v), STATE_DEFAULT
+        if not v > 0.0:
+            raise ValueError(
+                "Unstable system: Rectifier component '{}' has zero output voltage".format(
+                    self._params["name"]
+                )
+            )
+        return v, STATE_DEFAULT
 
     def _solv_pwr_loss(self, vi, vo, ii, io, ta, phase, phase_conf=[], pstate={}):
         """Calculate power and loss in Rectifier"""
